@@ -4,6 +4,9 @@ go 1.19
 
 require github.com/virus-evolution/gofasta v0.0.0
 
-require golang.org/x/exp v0.0.0-20230116083435-1de6713980de // indirect
+require (
+	github.com/biogo/hts v1.2.1 // indirect
+	golang.org/x/exp v0.0.0-20230116083435-1de6713980de // indirect
+)
 
 replace github.com/virus-evolution/gofasta => /repo
